@@ -130,6 +130,10 @@ func recoverFunc(runInfo *runInfoStruct) {
 }
 
 func isNil(v reflect.Value) bool {
+	if v.Kind() == reflect.Interface && !v.IsNil() {
+		// a typed nil read from a container is nil like the same value read from a variable
+		v = v.Elem()
+	}
 	switch v.Kind() {
 	case reflect.Chan, reflect.Func, reflect.Interface, reflect.Map, reflect.Ptr, reflect.Slice:
 		// from reflect IsNil:
